@@ -8,11 +8,16 @@ REPLAY = os.path.join(VERIF, "replay")
 BUILD = os.path.join(VERIF, ".build")
 OUT = os.path.join(VERIF, "out")
 EVID = os.path.join(VERIF, "evidence")
-KNOWN = os.path.join(VERIF, "known_findings.txt")
+KNOWN = os.environ.get("VERIF_KNOWN_FINDINGS", os.path.join(VERIF, "known_findings.txt"))
 NSLOTS = 4
 MEM_CAP_GB = int(os.environ.get("VERIF_MEM_GB", "24"))
 
 from table import TABLE, PROPERTY_META  # noqa: E402
+
+try:
+    GOALS = json.load(open(os.path.join(VERIF, "vlib", "goals.json")))
+except Exception:
+    GOALS = {}
 
 
 def log(*a):
@@ -423,6 +428,10 @@ def write_evidence(pid, tier, seed, ents, results, t0, nviol, meta, rev, dirty, 
              "solver": e.get("solver", "cadical"), "verification_time_s": d.get("time_s"), "draw_order": e.get("draws", "")}
         if d.get("decided_by"):
             s["decided_by"] = d["decided_by"]
+        g = GOALS.get(e["name"], {})
+        s["assertions"] = g.get("checks", [])
+        if d.get("status") == "pass":
+            s["scenarios_shown_reachable"] = g.get("covers", [])
         if models and e["name"] in models:
             s["models"] = [{"failed_check": m["desc"], "values": m["values"],
                             "native": [n["line"] for n in m.get("native", [])]} for m in models[e["name"]]]
